@@ -1,11 +1,13 @@
 //! C18 — verifiers and decoders fail cleanly on malformed input.
 //!
 //! Commands (all print JSON result lines on stdout, see bin/lib/c18.py):
+//!   all      --scen <ndjson> [--fams N] [--threads T] [--budget B] [--byte-fams M]
+//!                                          everything below in one process (families built once)
 //!   shapes   --scen <ndjson from spec/ProofShape.tla> [--fams N]   replay shape scenarios
-//!   ctamper  [--fams N]                                            value tampers of valid compressed proofs
-//!   adaptive [--tries N]                                           Fiat–Shamir re-targeting adversaries
-//!   bytes    [--fams N] [--budget N]                               decoder fuzzing
-//!   selftest                                                       binding canaries
+//!   ctamper  [--fams N] [--untampered]     value tampers of valid compressed proofs (+ binding self-test)
+//!   adaptive [--tries N]                   Fiat–Shamir re-targeting through `verify` (pow-witness search)
+//!   bytes    [--byte-fams N] [--budget N] [--identity-selftest]    decoder fuzzing
+//!   alloc-selftest                         the allocation guard catches a 1 TiB request
 #![feature(alloc_error_hook)]
 #[path = "../c03c18_kit.rs"]
 mod kit;
